@@ -8,6 +8,10 @@ os.environ["VERIF_INLINE"] = "0"
 from sa import facts, inline
 f = facts.extract()
 out = {k: sorted(b["path"] for b in f[k]["bodies"] if b["kind"] == "fn") for k in ("lib", "bin")}
+# signatures (argument and return types): a function that disappears while one with the same signature appears in the
+# same module is a rename; the facts are normalised back to the baseline name (sa/inline.py)
+for k in ("lib", "bin"):
+    out[k + "_sig"] = {b["path"]: inline.signature(b) for b in f[k]["bodies"] if b["kind"] == "fn"}
 # Option / Result combinator calls of the confirmed tree, per body: calls beyond these counts are rewritten into matches
 for k in ("lib", "bin"):
     cnt = {}
